@@ -49,6 +49,33 @@ def _run_variant(v, repo):
         shutil.rmtree(d, ignore_errors=True)
 
 
+def run_for_prop(prop, jobs=16):
+    """used by the thorough tier: (number of variants, list of problem descriptions) for one property"""
+    corpus = json.loads(CORPUS.read_text())
+    repo = repo_root()
+    variants = [dict(v, kind="mutant", props=[v["expect"]["prop"]]) for v in corpus["mutants"] if v["expect"]["prop"] == prop]
+    variants += [dict(v, kind="equivalent", props=[prop]) for v in corpus["equivalents"] if prop in v["props"]]
+    problems = []
+    results = []
+    with ThreadPoolExecutor(max_workers=max(1, jobs)) as ex:
+        for v, status, out in ex.map(lambda v: _run_variant(v, repo), variants):
+            if status == "STALE":
+                # the tree under analysis differs from the one the corpus was written for at this spot: not a checker defect
+                results.append({"variant": v["id"], "kind": v["kind"], "skipped": "anchor text not present in this tree"})
+                continue
+            rc, text = out[prop]
+            if v["kind"] == "mutant":
+                hit = rc == 1 and any(v["expect"]["rule"] in line for line in text.splitlines() if line.startswith("  "))
+                results.append({"variant": v["id"], "kind": "mutant", "caught": hit})
+                if not hit:
+                    problems.append(f"{v['id']}: seeded mutant not reported by {v['expect']['rule']} (exit {rc})")
+            else:
+                results.append({"variant": v["id"], "kind": "equivalent", "silent": rc == 0})
+                if rc != 0:
+                    problems.append(f"{v['id']}: behaviour-preserving edit raised an alarm (exit {rc})")
+    return results, problems
+
+
 def main(jobs=16, only_prop=None) -> int:
     corpus = json.loads(CORPUS.read_text())
     repo = repo_root()
